@@ -2,6 +2,8 @@
 
 from __future__ import annotations
 
+import enum
+
 import numpy as np
 import scipp as sc
 
@@ -18,7 +20,13 @@ RULE = (
     'on generated beams in generic orientation (scattering angle classes: generic, log-uniform 1e-9..1e-1 from 0 '
     'and from pi, exactly 0 and pi; one incident beam for all pixels or one per pixel), wavelengths 0.01..100 '
     'angstrom as float64 / float32 / integer, dense, 0-d or events; every shard runs the forced combinations '
-    'float32 wavelength x (small angle, back-scattering) x layout; '
+    'float32 wavelength x (small angle, back-scattering) x layout, every layout of (wavelength: 0-d, per pixel, per '
+    'wavelength, 2-d, events) x (incident, scattered beam: 0-d or per pixel) with and without VARIANCES on the '
+    'wavelength (float64 and float32; propagated first order, refusals of scipp counted), caller dims named like '
+    'internal names; in situ: shipped graph, graph factories, the kernels as nodes of a caller graph (UB from U and B '
+    'coordinates), coordinates with variances, masked dense / event data, str subclasses for start/origin/target, '
+    'second use / call after a caught refusal / copies and display between calls; one shard with 2**20 + 7 and '
+    '3 x 400001 element operands; '
     'R and U Haar-random or axis permutations (quaternion or 3x3 form), B upper triangular with condition '
     'number up to 1e6; distinct = (function, units, dtype, matrix representation, cond decade, shape class, '
     'angle class) signatures'
@@ -26,6 +34,11 @@ RULE = (
 ASSUMPTIONS = [
     'a scipp rotation3 holds a unit quaternion (x, y, z, w); its matrix is the standard one',
     'cond(R UB) is taken from a float64 SVD',
+    'refusals that are scipp rules are counted, not judged: VariancesError when a wavelength with variances would '
+    'have to be broadcast against the beams, VariancesError when components with variances are packed into a '
+    'vector3; DimensionError of Q_vec_from_Q_elements for components of different sizes',
+    'variances: one operand with variances (the wavelength) entering as the power law 1/lambda, first order: '
+    'sd(Q_c) = |Q_c| sd(lambda)/lambda',
 ]
 EPS = si.EPS64
 LEN_UNITS = ['m', 'mm', 'cm', 'angstrom', 'one']  # 'one': beams given as dimensionless direction vectors of any length
@@ -51,19 +64,38 @@ def quat_to_matrix(q):
 
 
 def as_matrix(var, res=None):
-    """(..., 3, 3) long double matrices of a rotation3 / linear_transform3 variable."""
-    v = var
-    if res is not None and v.dims != res.dims:
-        v = sc.broadcast(v, dims=res.dims, shape=res.shape)
-    vals = np.asarray(v.values)
-    if v.dtype == sc.DType.rotation3:
+    """(..., 3, 3) long double matrices of a rotation3 / linear_transform3 variable, laid out like the elements of res
+    (dense: res.shape; binned: one per event)."""
+    vals = np.asarray(var.values) if res is None else ops.align(var, res)
+    if ops.elem_dtype(var) == sc.DType.rotation3:
         return quat_to_matrix(vals)
     return vals.astype(si.LD)
 
 
 def bvec(var, res):
-    v = var if var.dims == res.dims else sc.broadcast(var, dims=res.dims, shape=res.shape)
-    return np.asarray(v.values)
+    return ops.align(var, res)
+
+
+def elem_variances(v):
+    """Variable (dense or binned like v) holding the variances of v as VALUES, or None if v carries none."""
+    if ops.is_binned(v):
+        c = v.bins.constituents
+        if c['data'].variances is None:
+            return None
+        return sc.bins(begin=c['begin'], end=c['end'], dim=c['dim'], data=sc.variances(c['data']))
+    return None if v.variances is None else sc.variances(v)
+
+
+def outer_dims(v):
+    return set(v.dims)
+
+
+def variances_need_broadcast(wavelength, *beams):
+    """scipp refuses to broadcast an operand with variances (the copies would be correlated): a wavelength with
+    variances is supported only where its dims cover the dims of the beams."""
+    if elem_variances(wavelength) is None:
+        return False
+    return any(not set(b.dims) <= outer_dims(wavelength) for b in beams)
 
 
 class Monitors:
@@ -78,12 +110,23 @@ class Monitors:
         name = 'Q_elements_from_wavelength'
         ctx = self.ctx
         if ev.exc is not None:
+            try:
+                allowed = isinstance(ev.exc, sc.VariancesError) and variances_need_broadcast(
+                    ev.args['wavelength'], ev.args['incident_beam'], ev.args['scattered_beam'])
+            except Exception:  # noqa: BLE001
+                allowed = False
+            if allowed:  # scipp's rule, not the package's: counted, not judged
+                ctx.event(name + '.refusal')
+                ctx.count('refusal: wavelength variances would have to be broadcast (VariancesError)')
+                return
             ctx.violation('raised', f'{name} raised {type(ev.exc).__name__}: {ev.exc}', self._case(name, ev))
             return
         try:
             a = ev.args
             res = ev.result
             qx = res['Qx']
+            var_in = elem_variances(a['wavelength'])
+            var_out = [elem_variances(res[c]) for c in ('Qx', 'Qy', 'Qz')]
             lam_unit = ops.elem_unit(a['wavelength'])
             lam = ops.align(a['wavelength'], qx).astype(si.LD)  # in its own unit: Q in 1/unit
             b1 = geom.v3(ops.align(a['incident_beam'], qx))
@@ -109,10 +152,41 @@ class Monitors:
             frac = np.where(np.isfinite(got).all(axis=-1) | ~np.isfinite(want).all(axis=-1), frac, np.inf)
             worst = float(np.max(frac)) if frac.size else 0.0
             unit_ok = all(ops.elem_unit(res[c]) == sc.Unit('one') / lam_unit for c in ('Qx', 'Qy', 'Qz'))
+            vworst = None
+            if var_in is not None and all(v is not None for v in var_out):
+                # first-order propagation through the power law Q_c = (2 pi e_c) / lambda of ONE operand with
+                # variances: sd(Q_c) = |Q_c| sd(lambda) / lambda.  Bound: the bound of Q_c itself times
+                # sd(lambda)/lambda, plus 64 eps(lambda) sd(Q_c) for the factor sd(lambda)/lambda.
+                rel = np.sqrt(ops.align(var_in, qx).astype(si.LD)) / np.abs(lam)
+                sd_want = np.abs(want) * rel[..., None]
+                sd_got = np.sqrt(np.stack([ops.result_values(v).astype(si.LD) for v in var_out], axis=-1))
+                vtol = (tol * rel)[..., None] + 64 * (si.EPS32 if f32 else EPS) * sd_want
+                verr = np.abs(sd_got - sd_want)
+                with np.errstate(divide='ignore', invalid='ignore'):
+                    vfrac = np.where(vtol > 0, verr / vtol, np.where(verr > 0, np.inf, 0))
+                vfrac = np.where(np.isnan(vfrac), np.inf, vfrac)
+                vworst = float(np.max(vfrac)) if vfrac.size else 0.0
         except Exception:  # noqa: BLE001
             ctx.oracle_error(name)
             return
         ctx.event(name)
+        if var_in is not None:
+            ctx.event(name + '.variances')
+            if any(v is None for v in var_out):
+                ctx.violation('variances', f'{name}: the wavelength carries variances but '
+                              f'{[c for c, v in zip(("Qx", "Qy", "Qz"), var_out, strict=True) if v is None]} carry none',
+                              self._case(name, ev), mechanism='dropped')
+            else:
+                ctx.dev('Q_elements: |sd(Q_c) - |Q_c| sd(lambda)/lambda| / bound (x 64)', vworst * 64)
+                if vworst > 1:
+                    j = int(np.argmax(vfrac))
+                    ctx.violation('variances', f'{name}: standard deviation of a component differs from first-order '
+                                  f'propagation |Q_c| sd(lambda)/lambda by {vworst:.3g} x the bound; got '
+                                  f'{float(sd_got.reshape(-1)[j])!r}, expected {float(sd_want.reshape(-1)[j])!r}',
+                                  self._case(name, ev), mechanism='propagation')
+        elif any(v is not None for v in var_out):
+            ctx.violation('variances', f'{name}: result carries variances although no operand does',
+                          self._case(name, ev), mechanism='invented')
         if f32:
             ctx.event(name + '.f32')
             ctx.dev('Q_elements.f32: |err| / (eps32 |Q_vec| + eps64 2pi/lambda)', worst * 64)
@@ -133,6 +207,25 @@ class Monitors:
         name = 'Q_vec_from_Q_elements'
         ctx = self.ctx
         if ev.exc is not None:
+            try:
+                allowed = isinstance(ev.exc, sc.VariancesError) and any(
+                    elem_variances(ev.args[c]) is not None for c in ('Qx', 'Qy', 'Qz'))
+            except Exception:  # noqa: BLE001
+                allowed = False
+            if allowed:  # scipp's vector3 cannot hold variances
+                ctx.event(name + '.refusal')
+                ctx.count('refusal: components with variances cannot be packed into vector3 (VariancesError)')
+                return
+            try:
+                a = ev.args
+                mismatch = isinstance(ev.exc, sc.DimensionError) and not (
+                    dict(a['Qx'].sizes) == dict(a['Qy'].sizes) == dict(a['Qz'].sizes))
+            except Exception:  # noqa: BLE001
+                mismatch = False
+            if mismatch:  # the documented refusal of components of different sizes
+                ctx.event(name + '.refusal')
+                ctx.count('refusal: components of different sizes (DimensionError)')
+                return
             ctx.violation('raised', f'{name} raised {type(ev.exc).__name__}: {ev.exc}', self._case(name, ev))
             return
         a, res = ev.args, ev.result
@@ -156,9 +249,16 @@ class Monitors:
             ctx.violation('raised', f'{name} raised {type(ev.exc).__name__}: {ev.exc}', self._case(name, ev))
             return
         ctx.event(name)
-        v = np.asarray(ev.args['hkl_vec'].values)
-        ok = all(np.array_equal(np.asarray(ev.result[c].values).view(np.int64), v[..., i].view(np.int64))
-                 for i, c in enumerate('hkl'))
+        try:
+            v = ops.result_values(ev.args['hkl_vec'])
+            ok = all(np.array_equal(np.ascontiguousarray(ops.result_values(ev.result[c])).view(np.int64),
+                                    np.ascontiguousarray(v[..., i]).view(np.int64))
+                     and (not ops.is_binned(ev.result[c]) or np.array_equal(ops.bin_sizes(ev.result[c]),
+                                                                            ops.bin_sizes(ev.args['hkl_vec'])))
+                     for i, c in enumerate('hkl'))
+        except Exception:  # noqa: BLE001
+            ctx.oracle_error(name)
+            return
         if not ok:
             ctx.violation('split', f'{name}: components differ from the vector', self._case(name, ev))
 
@@ -199,12 +299,12 @@ class Monitors:
             R = as_matrix(a['sample_rotation'], res)
             UB = as_matrix(a['ub_matrix'], res)
             Q = geom.v3(bvec(a['Q_vec'], res))
-            hkl = np.asarray(res.values).astype(si.LD)
+            hkl = ops.result_values(res).astype(si.LD)
             M = R @ UB
             back = 2 * si.PI * np.einsum('...ij,...j->...i', M, hkl)
             # the result carries the unit Q/UB (a scaled dimensionless unit when Q and UB are given in
             # different reciprocal lengths), so in values: 2 pi M hkl = Q
-            unit_ok = res.unit == a['Q_vec'].unit / a['ub_matrix'].unit
+            unit_ok = ops.elem_unit(res) == ops.elem_unit(a['Q_vec']) / a['ub_matrix'].unit
             resid = geom.norm(back - Q)
             cond = np.linalg.cond(M.astype(np.float64))
             tol = 64 * EPS * cond * geom.norm(Q)
@@ -217,8 +317,8 @@ class Monitors:
         ctx.event(name)
         ctx.dev('hkl: residual / (eps cond |Q|)', worst * 64)
         if not unit_ok:
-            ctx.violation('unit', f'{name}: unit {res.unit} is not unit(Q)/unit(UB)', self._case(name, ev))
-        elif not np.all(np.isfinite(np.asarray(res.values))):
+            ctx.violation('unit', f'{name}: unit {ops.elem_unit(res)} is not unit(Q)/unit(UB)', self._case(name, ev))
+        elif not np.all(np.isfinite(hkl.astype(np.float64))):
             ctx.violation('nonfinite', f'{name}: non-finite hkl', self._case(name, ev))
         elif worst > 1:
             ctx.violation('hkl_residual', f'{name}: |2 pi R UB hkl - Q| = {worst * 64:.3g} eps cond |Q| (bound 64)',
@@ -356,10 +456,21 @@ def gen_b(rng, n, ctx):
     return var, unit, dec
 
 
-LAYOUTS = ['per_pixel', '2d', 'scalar_lambda', 'binned']
+LAYOUTS = ['per_pixel', '2d', 'scalar_lambda', 'binned', 'wav_only']
+BEAM_LAYOUTS = [('0', '0'), ('0', 'p'), ('p', '0'), ('p', 'p')]  # (incident, scattered): 0-d or one per pixel
+# caller dims named like names that appear as dims / coordinates / event dims inside scipp and scippneutron:
+# (pixel dim, wavelength dim, event dim of the bins)
+DIM_NAMES = [('x', 'y', 'z'), ('event', 'row', 'event'), ('Qx', 'Q_vec', 'wavelength'), ('wavelength', 'pixel', 'Qx'),
+             ('range', 'vertex', 'cutout'), ('rotation', 'slit', 'rotation')]
+
+
+def _forced(dt, angle, layout, beams=None, var=False, dims=None):
+    return {'dt': dt, 'angle': angle, 'layout': layout, 'beams': beams, 'var': var, 'dims': dims}
+
+
 # forced cases of every shard (index i of the Q family): the classes a random draw of (wavelength dtype x angle class x
-# layout) may or may not produce.  (wavelength dtype, angle class, layout or None = random)
-FORCED_Q = {
+# layout x beam layout x variances x dim names) may or may not produce.
+FORCED_Q = {k: _forced(*v) for k, v in {
     3: ('float32', 'sans', 'per_pixel'), 4: ('float32', 'sans', '2d'), 5: ('float32', 'sans', 'scalar_lambda'),
     6: ('float32', 'sans', 'binned'),
     7: ('float32', 'back_sans', '2d'), 8: ('float32', 'back_sans', 'binned'),
@@ -369,14 +480,60 @@ FORCED_Q = {
     15: ('float64', 'zero', '2d'), 16: ('float32', 'zero', 'per_pixel'), 17: ('float64', 'pi', 'per_pixel'),
     18: ('float32', 'pi', '2d'),
     19: ('int64', None, 'per_pixel'), 20: ('int32', 'sans', '2d'), 21: ('int64', None, 'binned'),
-}
+}.items()}
+# every layout scipp allows for (wavelength, incident beam, scattered beam), with and without variances on the
+# wavelength (the only operand whose dtype can hold them), double and single precision
+_i = 22
+for _var in (True, False):
+    for _dt in ('float64', 'float32') if _var else ('float64',):
+        for _layout in ('scalar_lambda', 'per_pixel', 'wav_only', '2d', 'binned'):
+            for _bl in BEAM_LAYOUTS:
+                FORCED_Q[_i] = _forced(_dt, ['sans', None, 'back_sans', None][_i % 4], _layout, _bl, _var)
+                _i += 1
+for _k, _names in enumerate(DIM_NAMES):
+    FORCED_Q[_i] = _forced(['float64', 'float32'][_k % 2], None, ['per_pixel', '2d', 'binned'][_k % 3],
+                           BEAM_LAYOUTS[(_k + 1) % 4], _k % 2 == 0, _names)
+    _i += 1
+N_FORCED_Q = _i
 
 
-def q_family(rng, ctx, K, KB, mon, i=-1):
-    n = int(rng.integers(1, 40))
-    wdt, angle_class, layout = FORCED_Q.get(i, (None, None, None))
-    single = n == 1 or rng.random() < 0.5  # incident beam given once (0-d) or per pixel
-    a, b = gen_beams(rng, n, ctx, force=angle_class, single_incident=single)
+def make_binned_var(values, variances, sizes, dim_outer, unit, dtype, dim):
+    sizes = np.asarray(sizes, dtype=np.int64)
+    end = np.cumsum(sizes)
+    data = sc.array(dims=[dim], values=values, variances=variances, unit=unit, dtype=dtype)
+    return sc.bins(begin=sc.array(dims=[dim_outer], values=end - sizes, unit=None, dtype='int64'),
+                   end=sc.array(dims=[dim_outer], values=end, unit=None, dtype='int64'), dim=dim, data=data)
+
+
+def lam_var_given(lam):
+    return np.asarray(ops.result_values(elem_variances(lam)), dtype=np.float64)
+
+
+def like_dims(v, ref):
+    """v laid out with the dims of ref (transposed or broadcast)."""
+    if v.dims == ref.dims:
+        return v
+    if set(v.dims) == set(ref.dims):
+        return v.transpose(ref.dims).copy()
+    return sc.broadcast(v, dims=ref.dims, shape=ref.shape).copy()
+
+
+def q_family(rng, ctx, K, KB, mon, i=-1, n=None, families=True):
+    n = int(rng.integers(1, 40)) if n is None else n
+    fc = FORCED_Q.get(i) or _forced(None, None, None)
+    wdt, angle_class, layout = fc['dt'], fc['angle'], fc['layout']
+    r_single, r_sc0, r_var = rng.random(3)
+    inc0, sca0 = (n == 1 or r_single < 0.5), r_sc0 < 0.15  # beam given once (0-d) or per pixel
+    if fc['beams']:
+        inc0, sca0 = fc['beams'][0] == '0', fc['beams'][1] == '0'
+    P, W, E = fc['dims'] or ('pixel', 'wavelength', 'event')
+    if fc['dims']:
+        ctx.hit('caller dims named like internal / coordinate names')
+    # the angle classes are measured pixel by pixel between the two operands as given: with one scattered beam for
+    # per-pixel incident beams the roles are generated the other way round
+    a, b = gen_beams(rng, n, ctx, force=angle_class, single_incident=inc0 or sca0)
+    if sca0 and not inc0:
+        a, b = b, a
     u1, u2 = LEN_UNITS[rng.integers(0, 5)], LEN_UNITS[rng.integers(0, 5)]
     if 0 <= i < 3:  # dimensionless beams in every shard: incident, scattered, both
         u1, u2 = [('one', u2 if u2 != 'one' else 'm'), (u1 if u1 != 'one' else 'm', 'one'), ('one', 'one')][i]
@@ -384,42 +541,80 @@ def q_family(rng, ctx, K, KB, mon, i=-1):
         if u == 'one':
             ctx.hit(f'dimensionless {which} beam')
     uw = WAV_UNITS[rng.integers(0, 3)]
-    r_dt, r_layout = rng.random(), LAYOUTS[rng.integers(0, 4)]
+    r_dt, r_layout = rng.random(), LAYOUTS[rng.integers(0, 5)]
     dt = wdt or ('float32' if r_dt < 0.2 else 'float64')
     layout = layout or r_layout
     f32 = dt == 'float32'
+    var = fc['var'] if i in FORCED_Q else (r_var < 0.15 and not dt.startswith('int'))
     lam_si = 10.0 ** rng.uniform(-12, -8, size=(n, 5))
+    rel_sd = 10.0 ** rng.uniform(-6, -0.5, size=(n, 5))  # sd(lambda)/lambda of the wavelengths with variances
     if dt.startswith('int'):  # whole numbers of angstrom (1..100) or nm (1..10): the integer part of the quantifier's range
         uw = WAV_UNITS[rng.integers(0, 2)]
         lam_si = rng.integers(1, 101 if uw == 'angstrom' else 11, size=(n, 5)) * (1e-10 if uw == 'angstrom' else 1e-9)
         ctx.hit('integer wavelength')
     fw = float(si.lookup(sc.Unit(uw))[0])
     lam_v = np.rint(lam_si / fw) if dt.startswith('int') else lam_si / fw
+    lam_var = (rel_sd * lam_v) ** 2
+
+    def arr(dims, sel):
+        if not dims:
+            return sc.scalar(lam_v[sel], variance=lam_var[sel] if var else None, unit=uw, dtype=dt)
+        return sc.array(dims=dims, values=lam_v[sel], variances=lam_var[sel] if var else None, unit=uw, dtype=dt)
+
     if layout == 'per_pixel':
-        lam = sc.array(dims=['pixel'], values=lam_v[:, 0], unit=uw, dtype=dt)
+        lam = arr([P], (slice(None), 0))
     elif layout == '2d':
-        lam = sc.array(dims=['pixel', 'wavelength'], values=lam_v, unit=uw, dtype=dt)
+        lam = arr([P, W], (slice(None), slice(None)))
     elif layout == 'scalar_lambda':
-        lam = sc.scalar(lam_v[0, 0], unit=uw, dtype=dt)
+        lam = arr([], (0, 0))
+    elif layout == 'wav_only':
+        lam = arr([W], (0, slice(None)))
     else:
         sizes = rng.integers(0, 6, size=n)
         if i in FORCED_Q and sizes.sum() == 0:
             sizes[0] = 3  # a forced class must reach the kernel with at least one event
-        lam = ops.make_binned(np.resize(lam_v, int(sizes.sum())).astype(dt), sizes, ['pixel'], (n,), uw, dtype=dt)
+        tot = int(sizes.sum())
+        lam = make_binned_var(np.resize(lam_v, tot).astype(dt), np.resize(lam_var, tot).astype(dt) if var else None,
+                              sizes, P, uw, dt, E)
     if f32 and angle_class in ('sans', 'parallel', 'small'):
         ctx.hit('float32 wavelength, nearly parallel beams')
     if f32 and angle_class in ('back_sans', 'antiparallel', 'back'):
         ctx.hit('float32 wavelength, back-scattering')
     if f32 and layout == 'binned' and angle_class == 'sans':
         ctx.hit('float32 event wavelengths, nearly parallel beams')
-    mon.meta = {'family': 'Q', 'layout': layout, 'units': (u1, u2, uw), 'f32': f32, 'wavelength_dtype': dt,
-                'angle_class': angle_class or 'mixed'}
-    vb1 = vecs(a[0], u1) if single else vecs(a, u1)
-    vb2 = vecs(b, u2) if n > 1 else sc.vectors(dims=['pixel'], values=b, unit=u2)
+    beams = ('0' if inc0 else 'p') + ('0' if sca0 else 'p')
+    mon.meta = {'family': 'Q', 'layout': layout, 'beams': beams, 'units': (u1, u2, uw), 'f32': f32,
+                'wavelength_dtype': dt, 'angle_class': angle_class or 'mixed', 'wavelength_variances': var,
+                'dims': (P, W, E)}
+    A, B = (a[:1] if inc0 else a), (b[:1] if sca0 else b)
+
+    def mk(vals, zero_d, unit):
+        return vecs(vals[0], unit) if zero_d else sc.vectors(dims=[P], values=np.asarray(vals, dtype=np.float64), unit=unit)
+
+    vb1, vb2 = mk(A, inc0, u1), mk(B, sca0, u2)
+    sig = ('Q', layout, u1, u2, uw, dt, beams, angle_class or 'mixed', 'var' if var else 'novar',
+           'dims:' + P if fc['dims'] else '')
+    if var:
+        cls = f'wavelength with variances: {layout}, beams {beams}'
+        if variances_need_broadcast(lam, vb1, vb2):
+            # what scipp does with an operand with variances that would have to be broadcast is scipp's rule
+            # (VariancesError): the monitor counts the refusal; a result, if one is returned, is judged as usual
+            ctx.hit(cls + ' (variances would have to be broadcast)')
+            try:
+                K.Q_elements_from_wavelength(wavelength=lam, incident_beam=vb1, scattered_beam=vb2)
+            except sc.VariancesError:
+                pass
+            return sig
+        ctx.hit(cls)
+        ctx.hit('float32 wavelength with variances' if f32 else 'float64 wavelength with variances')
     base = K.Q_elements_from_wavelength(wavelength=lam, incident_beam=vb1, scattered_beam=vb2)
-    qv = K.Q_vec_from_Q_elements(**base)
-    if layout != 'binned':
-        A = a[:1] if vb1.ndim == 0 else a
+    if var:
+        try:  # vector3 cannot hold variances: the monitor counts the refusal (or judges the vector if one is returned)
+            K.Q_vec_from_Q_elements(**base)
+        except sc.VariancesError:
+            pass
+    qv = K.Q_vec_from_Q_elements(**{c: sc.values(v) for c, v in base.items()})
+    if layout != 'binned' and families:
         kk = np.abs(2 * np.pi / np.asarray(ops.align(lam, qv), dtype=np.float64))
         # bounds of the families: the forward bound of the definition at the inputs as given, once per evaluation
         # that enters the comparison.  Absolute term eps64 x 2pi/lambda (double-precision beams, cancelling
@@ -429,9 +624,9 @@ def q_family(rng, ctx, K, KB, mon, i=-1):
         sfx = '.f32' if f32 else ''
         per = ' (eps32 |Q| + eps64 2pi/lambda)' if f32 else ' lambda/2pi (eps)'
 
-        def judge(event, devname, d, bound, kind, text):
+        def judge(event, devname, d, bound, kind, text, unit=unit_err, unit_text=None):
             with np.errstate(divide='ignore', invalid='ignore'):
-                r = np.where(unit_err > 0, d / unit_err, np.where(d > 0, np.inf, 0))
+                r = np.where(unit > 0, d / unit, np.where(d > 0, np.inf, 0))
             r = np.where(np.isnan(r), np.inf, r)
             w = float(np.max(r))
             ctx.event(event)
@@ -439,36 +634,70 @@ def q_family(rng, ctx, K, KB, mon, i=-1):
                 ctx.event(event + '.f32')
             ctx.dev(devname + sfx, w)
             if w > bound:
-                ctx.violation(kind, text.format(w=f'{w:.3g}', unit='(eps32 |Q_vec| + eps64 2pi/lambda)' if f32
-                                                else 'eps x 2pi/lambda', bound=bound), dict(mon.meta))
+                ctx.violation(kind, text.format(w=f'{w:.3g}', unit=unit_text or (
+                    '(eps32 |Q_vec| + eps64 2pi/lambda)' if f32 else 'eps x 2pi/lambda'), bound=bound), dict(mon.meta))
 
+        def sds(elements):
+            """(..., 3) standard deviations of the components, laid out like qv."""
+            return np.sqrt(np.stack([np.asarray(like_dims(sc.variances(elements[c]), qv).values, dtype=np.float64)
+                                     for c in ('Qx', 'Qy', 'Qz')], axis=-1))
+
+        if var:
+            # unit of the comparisons of standard deviations: sd(Q_c) = |Q_c| sd(lambda)/lambda, so the unit of Q
+            # times sd(lambda)/lambda, plus one eps(lambda) of the standard deviation itself
+            rel = np.sqrt(np.asarray(ops.align(sc.variances(lam), qv), dtype=np.float64)) / np.abs(
+                np.asarray(ops.align(lam, qv), dtype=np.float64))
+            sd0 = sds(base)
+            unit_sd = unit_err * rel + (si.EPS32 if f32 else EPS) * np.max(sd0, axis=-1)
+            sd_text = '(unit of Q x sd(lambda)/lambda + eps sd)'
         # independence of beam lengths
         k1, k2 = 2.0 ** int(rng.integers(-10, 11)), 2.0 ** int(rng.integers(-10, 11))
-        sc2 = K.Q_vec_from_Q_elements(**K.Q_elements_from_wavelength(
-            wavelength=lam, incident_beam=vecs(A[0] * k1, u1) if vb1.ndim == 0 else vecs(A * k1, u1),
-            scattered_beam=sc.vectors(dims=['pixel'], values=b * k2, unit=u2)))
+        el2 = K.Q_elements_from_wavelength(wavelength=lam, incident_beam=mk(A * k1, inc0, u1),
+                                           scattered_beam=mk(B * k2, sca0, u2))
+        sc2 = K.Q_vec_from_Q_elements(**{c: sc.values(v) for c, v in el2.items()})
         judge('family.rescale', 'family.rescale 2^k: |dQ|' + per, np.max(np.abs(sc2.values - qv.values), axis=-1), 128,
               'depends_on_beam_length', 'Q_vec changes by {w} x {unit} when the beams are rescaled by powers of two '
               '(bound {bound})')
+        if var:
+            judge('family.rescale.variances', 'family.rescale 2^k: |d sd(Q_c)| / (unit of Q x sd(lambda)/lambda + eps sd)',
+                  np.max(np.abs(sds(el2) - sd0), axis=-1), 128, 'depends_on_beam_length',
+                  'the standard deviations of Qx, Qy, Qz change by {w} x {unit} when the beams are rescaled by powers '
+                  'of two (bound {bound})', unit=unit_sd, unit_text=sd_text)
         # norm equals scalar Q of the same beams (observed two_theta + Q_from_wavelength)
         tt = KB.two_theta(incident_beam=vb1, scattered_beam=vb2)
-        Qs = K.Q_from_wavelength(wavelength=lam, two_theta=tt)
-        Qs = sc.broadcast(Qs, dims=qv.dims, shape=qv.shape) if Qs.dims != qv.dims else Qs
+        Qs = like_dims(K.Q_from_wavelength(wavelength=lam, two_theta=tt), qv)
         judge('family.norm_vs_scalar_Q', 'family.|Q_vec| vs scalar Q: diff' + per,
               np.abs(np.linalg.norm(qv.values, axis=-1) - np.asarray(Qs.values, dtype=np.float64)), 128,
               'norm_vs_scalar_q', '|Q_vec| differs from the scalar Q of the same beams by {w} x {unit} (bound {bound})')
+        decided = True
+        if var and f32:
+            # single-precision variances: products of the operands as given (var(lambda) x (4 pi sin theta)^2) can fall
+            # below the normal range of float32 for nearly parallel beams / wavelengths in metres; what the scalar Q
+            # carries then depends on the order of evaluation -- undecided, not judged
+            e0 = geom.v3(A) / geom.norm(A)[..., None] - geom.v3(B) / geom.norm(B)[..., None]
+            small = float(np.min(lam_var_given(lam))) * min(1.0, float(np.min((2 * si.PI * geom.norm(e0)) ** 2)))
+            if small < 1e-30:
+                decided = False
+                ctx.count('undecided: float32 variances of the scalar Q near the single-precision underflow range')
+        if var and Qs.variances is not None and decided:
+            # one operand with variances: the components are fully correlated, sd(|Q_vec|) = |Q_vec| sd(lambda)/lambda
+            # = sqrt(sum sd(Q_c)^2), which is what the scalar Q of the same wavelength must carry
+            judge('family.norm_vs_scalar_Q.variances',
+                  'family.sqrt(sum var Q_c) vs sd(scalar Q) / (unit of Q x sd(lambda)/lambda + eps sd)',
+                  np.abs(np.sqrt(np.sum(sd0 * sd0, axis=-1)) - np.sqrt(np.asarray(Qs.variances, dtype=np.float64))), 128,
+                  'norm_vs_scalar_q', 'sqrt(var Qx + var Qy + var Qz) differs from the standard deviation of the scalar Q '
+                  'of the same beams and wavelength by {w} x {unit} (bound {bound})', unit=unit_sd, unit_text=sd_text)
         # covariance: rotate both beams
         Rm = geom.random_rotation(rng)
         ra = (geom.v3(A) @ Rm.T).astype(np.float64)
-        rb = (geom.v3(b) @ Rm.T).astype(np.float64)
-        rot = K.Q_vec_from_Q_elements(**K.Q_elements_from_wavelength(
-            wavelength=lam, incident_beam=vecs(ra[0], u1) if vb1.ndim == 0 else vecs(ra, u1),
-            scattered_beam=sc.vectors(dims=['pixel'], values=rb, unit=u2)))
+        rb = (geom.v3(B) @ Rm.T).astype(np.float64)
+        rot = K.Q_vec_from_Q_elements(**{c: sc.values(v) for c, v in K.Q_elements_from_wavelength(
+            wavelength=lam, incident_beam=mk(ra, inc0, u1), scattered_beam=mk(rb, sca0, u2)).items()})
         want = (geom.v3(qv.values) @ Rm.T)
         judge('family.rotation', 'family.rotation covariance: |Q(Rb) - R Q(b)|' + per,
               np.max(np.abs(rot.values.astype(si.LD) - want), axis=-1).astype(np.float64), 256,
               'not_covariant', 'Q_vec of rotated beams differs from the rotated Q_vec by {w} x {unit} (bound {bound})')
-    return ('Q', layout, u1, u2, uw, dt, vb1.ndim, angle_class or 'mixed')
+    return sig
 
 
 def reassemble_family(rng, ctx, K, mon):
@@ -502,9 +731,354 @@ def hkl_family(rng, ctx, K, mon):
     return ('hkl', uform, rform, ub_unit, qunit, cdec, 'Q_array' if Q.ndim else 'Q_scalar')
 
 
+def _bits_equal(x, y):
+    """Two variables agree in dims, unit, dtype and in every bit of their elements (dense or binned)."""
+    if x.dims != y.dims or x.shape != y.shape or ops.elem_unit(x) != ops.elem_unit(y) or ops.elem_dtype(x) != ops.elem_dtype(y):
+        return False
+    if ops.is_binned(x) != ops.is_binned(y):
+        return False
+    if ops.is_binned(x) and not np.array_equal(ops.bin_sizes(x), ops.bin_sizes(y)):
+        return False
+    vx, vy = ops.result_values(x), ops.result_values(y)
+    if not np.array_equal(np.ascontiguousarray(vx).view(np.uint8), np.ascontiguousarray(vy).view(np.uint8)):
+        return False
+    ex, ey = elem_variances(x), elem_variances(y)
+    if (ex is None) != (ey is None):
+        return False
+    return ex is None or np.array_equal(ops.result_values(ex), ops.result_values(ey), equal_nan=True)
+
+
+def _instrument(rng, ctx, n, nw=3, force=None, wdt='float64', u_and_b=False):
+    """Dense data on (pixel, wavelength) with the coordinates the Q-vector / hkl graphs need."""
+    a, b = gen_beams(rng, n, ctx, force=force, single_incident=True)
+    coords = {'wavelength': sc.array(dims=['wavelength'], values=rng.uniform(0.5, 10, size=nw), unit='angstrom', dtype=wdt),
+              'incident_beam': vecs(a[0], 'm'), 'scattered_beam': vecs(b, 'm'),
+              'sample_rotation': sc.spatial.rotation(value=matrix_to_quat(geom.random_rotation(rng).astype(float)))}
+    bm = sc.spatial.linear_transform(value=np.triu(rng.uniform(0.5, 2, size=(3, 3))), unit='1/angstrom')
+    if u_and_b:
+        coords['u_matrix'] = sc.spatial.rotation(value=matrix_to_quat(geom.random_rotation(rng).astype(float)))
+        coords['b_matrix'] = bm
+    else:
+        coords['ub_matrix'] = bm
+    return sc.DataArray(sc.ones(dims=['pixel', 'wavelength'], shape=[n, nw]), coords=coords)
+
+
+def _events(rng, ctx, n, variances=False, masks=False):
+    """Binned data: event coordinate wavelength, per-pixel beams; optionally variances on the event wavelengths and
+    a bin-level plus an event-level mask."""
+    a, b = gen_beams(rng, n, ctx, single_incident=True)
+    sizes = rng.integers(0, 5, size=n)
+    sizes[0] = 2
+    end = np.cumsum(sizes)
+    tot = int(end[-1])
+    lam = rng.uniform(0.5, 10, size=tot)
+    ev = sc.DataArray(sc.ones(dims=['event'], shape=[tot]), coords={'wavelength': sc.array(
+        dims=['event'], values=lam, variances=(lam * 10.0 ** rng.uniform(-4, -1, size=tot)) ** 2 if variances else None,
+        unit='angstrom')})
+    if masks:
+        ev.masks['event_mask'] = sc.array(dims=['event'], values=rng.random(tot) < 0.5)
+    da = sc.DataArray(sc.bins(begin=sc.array(dims=['pixel'], values=end - sizes, unit=None, dtype='int64'),
+                              end=sc.array(dims=['pixel'], values=end, unit=None, dtype='int64'), dim='event', data=ev),
+                      coords={'incident_beam': vecs(a[0], 'm'), 'scattered_beam': vecs(b, 'm'),
+                              'sample_rotation': sc.spatial.rotation(value=matrix_to_quat(geom.random_rotation(rng).astype(float))),
+                              'ub_matrix': sc.spatial.linear_transform(value=np.triu(rng.uniform(0.5, 2, size=(3, 3))),
+                                                                       unit='1/angstrom')})
+    if masks:
+        m = rng.random(n) < 0.5
+        m[0] = True
+        da.masks['pixel_mask'] = sc.array(dims=['pixel'], values=m)
+    return da
+
+
+def _coord(da, name):
+    return da.bins.coords[name] if (da.bins is not None and name in da.bins.coords) else da.coords[name]
+
+
+class _Start(str, enum.Enum):
+    tof = 'tof'
+    wavelength = 'wavelength'
+
+
+def insitu_extras(rng, ctx, K, KB, mon, scn, GT):
+    """Deterministic classes of every shard that reach the kernels through the public routes in ways a random draw of
+    operands does not: caller graphs, masked data, coordinates with variances, str subclasses, second use, copies."""
+    import copy
+
+    def guarded(label, fn, allowed=()):
+        try:
+            return fn()
+        except allowed:
+            ctx.count('refusal: ' + label)
+            return None
+        except Exception as e:  # noqa: BLE001
+            ctx.violation('raised_outer', f'{label}: {type(e).__name__}: {e}', dict(mon.meta))
+            return None
+
+    def same_coords(kind, what, x, y, names):
+        ctx.event(kind)
+        for nm in names:
+            if not _bits_equal(_coord(x, nm), _coord(y, nm)):
+                ctx.violation(kind, f'{what}: coordinate {nm!r} differs', dict(mon.meta))
+                return False
+        return True
+
+    kernels_graph = {('Qx', 'Qy', 'Qz'): K.Q_elements_from_wavelength, 'Q_vec': K.Q_vec_from_Q_elements,
+                     'hkl_vec': K.hkl_vec_from_Q_vec, 'ub_matrix': K.ub_matrix_from_u_and_b,
+                     ('h', 'k', 'l'): K.hkl_elements_from_hkl_vec}
+    vec_names = ['Qx', 'Qy', 'Qz', 'Q_vec', 'hkl_vec', 'h', 'k', 'l']
+
+    # (d) the kernels as nodes of a caller's graph: every parameter of a node is looked up as a coordinate; UB from
+    # the coordinates u_matrix and b_matrix.  The monitors judge each kernel underneath.
+    n = int(rng.integers(2, 10))
+    da = _instrument(rng, ctx, n, u_and_b=True)
+    mon.meta = {'family': 'caller_graph', 'route': 'transform_coords(graph of kernels)'}
+    r1 = guarded('caller graph of kernels -> h, k, l, Q_vec, hkl_vec',
+                 lambda: da.transform_coords(['h', 'k', 'l', 'Q_vec', 'hkl_vec'], graph=kernels_graph,
+                                             keep_intermediate=True, keep_inputs=True))
+    mon.meta = {'family': 'caller_graph', 'route': 'convert, UB from u_matrix and b_matrix'}
+    r2 = guarded('convert with u_matrix, b_matrix coordinates -> hkl_vec',
+                 lambda: scn.convert(da, 'wavelength', 'hkl_vec', scatter=True))
+    if r1 is not None:
+        ctx.hit('kernels as nodes of a caller graph (UB from u_matrix, b_matrix coordinates)')
+        ctx.case(('caller_graph', n))
+        if r2 is not None:
+            same_coords('caller_graph', 'caller graph of kernels vs convert()', r1, r2, ['hkl_vec'])
+
+    # (e) str subclasses where a str is documented: numpy strings and members of a (str, Enum), numpy bool for scatter
+    da = _instrument(rng, ctx, n)
+    da_tof = da.copy()
+    da_tof.coords['Ltotal'] = sc.norm(da.coords['incident_beam']) + sc.norm(da.coords['scattered_beam'])
+    da_tof = da_tof.rename(wavelength='tof')
+    da_tof.coords['tof'] = sc.array(dims=['tof'], values=rng.uniform(500, 50000, size=3), unit='us')
+    for start, d0 in (('wavelength', da), ('tof', da_tof)):
+        for kind, st in (('numpy.str_', np.str_(start)), ('(str, Enum) member', _Start(start))):
+            for fac, target in ((GT.elastic_Q_vec, 'Q_vec'), (GT.elastic_hkl, 'hkl_vec')):
+                mon.meta = {'family': 'str_subclass', 'factory': fac.__name__, 'start': start, 'type': kind}
+                ref = guarded(f'{fac.__name__}({start!r})', lambda: d0.transform_coords(target, graph=fac(start)))  # noqa: B023
+                got = guarded(f'{fac.__name__}({kind} {start!r})', lambda: d0.transform_coords(target, graph=fac(st)))  # noqa: B023
+                if ref is None or got is None:
+                    continue
+                ctx.hit(f'start given as {kind}')
+                ctx.case(('str_subclass', fac.__name__, start, kind))
+                if set(map(str, fac(st))) != set(map(str, fac(start))):
+                    ctx.violation('str_subclass', f'graph.tof.{fac.__name__}({kind} {start!r}) has other nodes than '
+                                  f'for the plain str: {sorted(map(str, fac(st)))}', dict(mon.meta))
+                same_coords('str_subclass', f'{fac.__name__}({kind} {start!r}) vs plain str', got, ref, [target])
+        mon.meta = {'family': 'str_subclass', 'route': 'convert', 'start': start}
+        ref = guarded('convert(str, str, scatter=bool)', lambda: scn.convert(d0, start, 'hkl_vec', scatter=True))  # noqa: B023
+        got = guarded('convert(numpy.str_, numpy.str_, scatter=numpy.bool_)',
+                      lambda: scn.convert(d0, np.str_(start), np.str_('hkl_vec'), scatter=np.bool_(True)))  # noqa: B023
+        if ref is not None and got is not None:
+            ctx.hit('convert: origin, target as numpy.str_, scatter as numpy.bool_')
+            same_coords('str_subclass', 'convert with numpy scalars vs Python scalars', got, ref, ['hkl_vec'])
+
+    # (b) masks on the input: per-pixel and 2-d on dense data, bin-level and event-level on events; they must
+    # neither change a coordinate nor be changed
+    dm = da.copy()
+    dm.masks['pixel_mask'] = sc.array(dims=['pixel'], values=np.arange(n) % 2 == 0)
+    dm.masks['mask2d'] = sc.array(dims=['pixel', 'wavelength'], values=rng.random((n, 3)) < 0.5)
+    for label, masked, names in (('dense, per-pixel and 2-d masks', dm, ['pixel_mask', 'mask2d']),
+                                 ('events, bin-level and event-level masks', _events(rng, ctx, n, masks=True), ['pixel_mask'])):
+        plain = masked.copy()
+        for nm in list(plain.masks):
+            del plain.masks[nm]
+        if plain.bins is not None:
+            buf = plain.bins.constituents
+            ev = buf['data'].copy()
+            del ev.masks['event_mask']
+            plain = sc.DataArray(sc.bins(begin=buf['begin'], end=buf['end'], dim=buf['dim'], data=ev), coords=dict(plain.coords))
+        for target in ('Q_vec', 'hkl_vec'):
+            mon.meta = {'family': 'masks', 'data': label, 'target': target}
+            got = guarded(f'convert of masked data ({label}) -> {target}',
+                          lambda: scn.convert(masked, 'wavelength', target, scatter=True))  # noqa: B023
+            ref = guarded(f'convert of the same data without masks -> {target}',
+                          lambda: scn.convert(plain, 'wavelength', target, scatter=True))  # noqa: B023
+            if got is None or ref is None:
+                continue
+            ctx.hit('masked input: ' + label)
+            ctx.case(('masks', label, target))
+            same_coords('masks', f'convert of masked data ({label})', got, ref, [target])
+            # a dim of the data may be renamed by the conversion (wavelength -> target): the masks follow the data
+            ok = all(nm in got.masks and got.masks[nm].shape == masked.masks[nm].shape
+                     and set(got.masks[nm].dims) <= set(got.dims) and got.masks[nm].dtype == sc.DType.bool
+                     and np.array_equal(got.masks[nm].values, masked.masks[nm].values) for nm in names)
+            if masked.bins is not None:
+                gm = got.bins.constituents['data'].masks
+                ok = ok and 'event_mask' in gm and sc.identical(gm['event_mask'], masked.bins.constituents['data'].masks['event_mask'])
+            if not ok:
+                ctx.violation('masks', f'convert of masked data ({label}) -> {target}: a mask was dropped or changed',
+                              dict(mon.meta))
+
+    # (a) coordinates with variances through the graphs: per-pixel wavelength / tof on dense data, event wavelengths.
+    # The components carry the propagated variances (judged by the kernel monitor); packing them into Q_vec is refused
+    # by scipp (vector3 holds no variances), which the monitor counts.
+    a, b = gen_beams(rng, n, ctx, single_incident=True)
+    lam = rng.uniform(0.5, 10, size=n)
+    dv = sc.DataArray(sc.ones(dims=['pixel'], shape=[n]), coords={
+        'wavelength': sc.array(dims=['pixel'], values=lam, variances=(lam * 10.0 ** rng.uniform(-4, -1, size=n)) ** 2, unit='angstrom'),
+        'incident_beam': vecs(a[0], 'm'), 'scattered_beam': vecs(b, 'm')})
+    dt_ = dv.copy()
+    del dt_.coords['wavelength']
+    tof = rng.uniform(500, 50000, size=n)
+    dt_.coords['tof'] = sc.array(dims=['pixel'], values=tof, variances=(tof * 10.0 ** rng.uniform(-4, -1, size=n)) ** 2, unit='us')
+    dt_.coords['Ltotal'] = sc.norm(dv.coords['incident_beam']) + sc.norm(dv.coords['scattered_beam'])
+    for label, start, d0 in (('per-pixel wavelength coordinate', 'wavelength', dv), ('per-pixel tof coordinate', 'tof', dt_),
+                             ('event wavelengths', 'wavelength', _events(rng, ctx, n, variances=True))):
+        for route, graph in (('graph.tof.elastic_Q_vec', GT.elastic_Q_vec(start)),
+                             ('caller graph of kernels', {**GT.elastic_Q_vec(start), **kernels_graph})):
+            mon.meta = {'family': 'coordinate_variances', 'data': label, 'route': route}
+            got = guarded(f'{route}: {label} with variances -> Qx, Qy, Qz',
+                          lambda: d0.transform_coords(['Qx', 'Qy', 'Qz'], graph=graph))  # noqa: B023
+            if got is None:
+                continue
+            ctx.hit('coordinate with variances: ' + label)
+            ctx.case(('coordinate_variances', label, route))
+            ctx.event('coordinate_variances')
+            if any(elem_variances(_coord(got, c)) is None for c in ('Qx', 'Qy', 'Qz')):
+                ctx.violation('variances', f'{route}: {label} with variances: a component of Q carries none',
+                              dict(mon.meta), mechanism='dropped')
+            guarded('Q_vec from components with variances', lambda: d0.transform_coords('Q_vec', graph=graph),  # noqa: B023
+                    allowed=(sc.VariancesError,))
+
+    # (g) second use and (j) copies / display between two calls
+    da = _instrument(rng, ctx, n)
+    c = da.coords
+    lam2 = sc.broadcast(c['wavelength'], dims=['pixel', 'wavelength'], shape=[n, 3]).copy()
+    mon.meta = {'family': 'second_use'}
+
+    def chain(wavelength, inc, sca, ub, rot, between=lambda x: x):
+        el = between(K.Q_elements_from_wavelength(wavelength=wavelength, incident_beam=inc, scattered_beam=sca))
+        qv = between(K.Q_vec_from_Q_elements(**el))
+        h = between(K.hkl_vec_from_Q_vec(Q_vec=qv, ub_matrix=ub, sample_rotation=rot))
+        return {**el, 'Q_vec': qv, 'hkl_vec': h, **K.hkl_elements_from_hkl_vec(hkl_vec=h)}
+
+    def compare(kind, what, x, y):
+        ctx.event(kind)
+        bad = [nm for nm in vec_names if not _bits_equal(x[nm], y[nm])]
+        if bad:
+            ctx.violation(kind, f'{what}: {bad} differ from the first evaluation', dict(mon.meta))
+
+    args = (lam2, c['incident_beam'], c['scattered_beam'], c['ub_matrix'], c['sample_rotation'])
+    first = guarded('chain of kernels', lambda: chain(*args))
+    if first is not None:
+        again = guarded('chain of kernels, same objects again', lambda: chain(*args))
+        if again is not None:
+            ctx.hit('second use: same operand objects passed again')
+            compare('second_use', 'same operand objects passed again', again, first)
+        # after refusals that were raised and caught: components of different sizes, variances that cannot be packed
+        for label, fn, exc in (
+                ('components of different sizes', lambda: K.Q_vec_from_Q_elements(
+                    Qx=first['Qx'], Qy=first['Qy']['pixel', 1:], Qz=first['Qz']), sc.DimensionError),
+                ('components with variances', lambda: K.Q_vec_from_Q_elements(**{
+                    k: sc.array(dims=first[k].dims, values=first[k].values, variances=first[k].values ** 2,
+                                unit=first[k].unit) for k in ('Qx', 'Qy', 'Qz')}), sc.VariancesError)):
+            try:
+                fn()
+                ctx.count('second use: no refusal for ' + label)
+            except exc:
+                ctx.hit('second use: call repeated after a refusal was raised and caught')
+            except Exception as e:  # noqa: BLE001
+                ctx.violation('raised_outer', f'{label}: {type(e).__name__}: {e}', dict(mon.meta))
+            again = guarded('chain of kernels after a caught refusal', lambda: chain(*args))
+            if again is not None:
+                compare('second_use', f'call repeated after the refusal of {label}', again, first)
+        # results fed back as inputs: split -> reassemble -> split
+        mon.meta = {'family': 'second_use', 'what': 'results fed back'}
+        back = guarded('results fed back', lambda: K.hkl_elements_from_hkl_vec(hkl_vec=K.Q_vec_from_Q_elements(
+            Qx=first['h'], Qy=first['k'], Qz=first['l'])))
+        if back is not None:
+            ctx.hit('second use: results fed back as inputs')
+            ctx.event('second_use')
+            if not all(_bits_equal(back[k], first[k]) for k in 'hkl'):
+                ctx.violation('split', 'h, k, l reassembled with Q_vec_from_Q_elements and split again differ',
+                              dict(mon.meta))
+        # display and copies between two computational calls
+        mon.meta = {'family': 'copies'}
+        for label, between in (('repr / str', lambda x: (repr(x), str(x), x)[2]), ('copy.copy', copy.copy),
+                               ('copy.deepcopy', copy.deepcopy),
+                               ('.copy()', lambda x: {k: v.copy() for k, v in x.items()} if isinstance(x, dict) else x.copy())):
+            got = guarded(f'chain of kernels with {label} of every intermediate result', lambda: chain(*args, between=between))  # noqa: B023
+            if got is not None:
+                ctx.hit('display / copies of intermediate results between two calls')
+                compare('copies', f'{label} of every intermediate result', got, first)
+        ctx.case(('second_use_and_copies', n))
+    # the same graph object used twice, and a deep copy of it
+    for fac in (GT.elastic_Q_vec, GT.elastic_hkl):
+        mon.meta = {'family': 'second_use', 'what': 'graph object', 'factory': fac.__name__}
+        g = fac('tof')
+        keys = sorted(map(str, g))
+        target = 'Q_vec' if fac is GT.elastic_Q_vec else 'hkl_vec'
+        r1 = guarded('graph object, first use', lambda: da_tof.transform_coords(target, graph=g))  # noqa: B023
+        repr(g)
+        r2 = guarded('graph object, second use', lambda: da_tof.transform_coords(target, graph=g))  # noqa: B023
+        r3 = guarded('deep copy of a graph object', lambda: da_tof.transform_coords(target, graph=copy.deepcopy(g)))  # noqa: B023
+        r4 = guarded('factory called again', lambda: da_tof.transform_coords(target, graph=fac('tof')))  # noqa: B023
+        if None in (r1, r2, r3, r4):
+            continue
+        ctx.hit('second use: graph object used twice, deep-copied, factory called again')
+        for r in (r2, r3, r4):
+            same_coords('second_use', f'graph.tof.{fac.__name__}: second use / deep copy / second factory call', r, r1, [target])
+        if sorted(map(str, g)) != keys:
+            ctx.violation('second_use', f'graph.tof.{fac.__name__}: the graph object changed by being used', dict(mon.meta))
+
+
+def heavy(rng, ctx, K, KB, mon):
+    """Sizes beyond the generic small ones (no literal size threshold appears in the kernels themselves; scipp switches
+    to multi-threaded loops for large operands): 2**20 + 7 pixels, 3 x 400001, 2**20 + 7 events, a long Q array
+    against scalar matrices.  Every return is judged by the kernel monitors, element by element."""
+    big = 2 ** 20 + 7
+    a0, b0 = gen_beams(rng, 4099, ctx, single_incident=True)  # 4099 directions, repeated along the long dim
+    b_big = np.resize(b0, (big, 3))
+    lam = 10.0 ** rng.uniform(-2, 2, size=big)
+    rel = 10.0 ** rng.uniform(-6, -0.5, size=big)
+    m = 400001
+    sizes = np.array([big - m, m, 0])
+    cases = (
+        ('2**20 + 7 pixels, per-pixel wavelength with variances',
+         sc.array(dims=['pixel'], values=lam, variances=(rel * lam) ** 2, unit='angstrom'), vecs(a0[0], 'm'), vecs(b_big, 'mm')),
+        ('3 x 400001, float32 wavelength',
+         sc.array(dims=['pixel', 'wavelength'], values=np.resize(lam, (3, m)), unit='nm', dtype='float32'),
+         vecs(a0[:3], 'm'), vecs(b0[:3], 'm')),
+        ('2**20 + 7 events in 3 bins', ops.make_binned(lam, sizes, ['pixel'], (3,), 'angstrom'), vecs(a0[0], 'm'), vecs(b0[:3], 'mm')),
+    )
+    for label, w, vb1, vb2 in cases:
+        mon.meta = {'family': 'large', 'what': label}
+        try:
+            el = K.Q_elements_from_wavelength(wavelength=w, incident_beam=vb1, scattered_beam=vb2)
+            qv = K.Q_vec_from_Q_elements(**{c: (sc.values(v) if not ops.is_binned(v) else v) for c, v in el.items()})
+            del el, qv
+            ctx.hit('large operands: ' + label)
+            ctx.case(('Q', 'large', label))
+        except Exception as e:  # noqa: BLE001
+            ctx.violation('raised_outer', f'{label}: {type(e).__name__}: {e}', dict(mon.meta))
+    mon.meta = {'family': 'large', 'what': 'hkl of 2**20 + 7 Q vectors'}
+    try:
+        Bv, ub_unit, cdec = gen_b(rng, 1, ctx)
+        Uv = sc.spatial.rotation(value=matrix_to_quat(geom.random_rotation(rng).astype(float)))
+        Rv = sc.spatial.linear_transform(value=geom.random_rotation(rng).astype(np.float64))
+        UB = K.ub_matrix_from_u_and_b(u_matrix=Uv, b_matrix=Bv)
+        Q = sc.vectors(dims=['pixel'], values=rng.normal(size=(big, 3)), unit='1/angstrom')
+        h = K.hkl_vec_from_Q_vec(Q_vec=Q, ub_matrix=UB, sample_rotation=Rv)
+        K.hkl_elements_from_hkl_vec(hkl_vec=h)
+        ctx.hit('large operands: hkl of 2**20 + 7 Q vectors')
+        ctx.case(('hkl', 'large', cdec))
+    except Exception as e:  # noqa: BLE001
+        ctx.violation('raised_outer', f'hkl of 2**20 + 7 Q vectors: {type(e).__name__}: {e}', dict(mon.meta))
+
+
 def plan(tier, seed):
-    n = 16
-    return [{'q': 150 if tier == 'quick' else 5000, 'hkl': 150 if tier == 'quick' else 5000} for _ in range(n)]
+    # quick: 13 workload shards + 1 shard for the large operands + the 2 environment-variant shards of the runner
+    # = one wave on 16 cores
+    n, k = (13, 185) if tier == 'quick' else (15, 5400)
+    return [{'q': k, 'hkl': k} for _ in range(n)] + [{'q': 0, 'hkl': 0, 'heavy': True}]
+
+
+VAR_CLASSES = [f'wavelength with variances: {layout}, beams {i}{s}' + (
+    '' if layout in ('per_pixel', '2d', 'binned') or (i, s) == ('0', '0') else ' (variances would have to be broadcast)')
+    for layout in ('scalar_lambda', 'per_pixel', 'wav_only', '2d', 'binned') for i, s in BEAM_LAYOUTS]
+HEAVY_CLASSES = ['large operands: ' + x for x in (
+    '2**20 + 7 pixels, per-pixel wavelength with variances', '3 x 400001, float32 wavelength',
+    '2**20 + 7 events in 3 bins', 'hkl of 2**20 + 7 Q vectors')]
 
 
 def requirements(tier):
@@ -512,7 +1086,11 @@ def requirements(tier):
                        'ub_matrix_from_u_and_b': 100, 'hkl_elements_from_hkl_vec': 100, 'family.rotation': 30,
                        'family.norm_vs_scalar_Q': 30, 'family.rescale': 30,
                        'Q_elements_from_wavelength.f32': 100, 'family.rotation.f32': 30,
-                       'family.norm_vs_scalar_Q.f32': 30, 'family.rescale.f32': 30},
+                       'family.norm_vs_scalar_Q.f32': 30, 'family.rescale.f32': 30,
+                       'Q_elements_from_wavelength.variances': 200, 'Q_elements_from_wavelength.refusal': 50,
+                       'Q_vec_from_Q_elements.refusal': 100, 'family.rescale.variances': 50,
+                       'family.norm_vs_scalar_Q.variances': 50, 'coordinate_variances': 30, 'masks': 30,
+                       'caller_graph': 10, 'str_subclass': 100, 'second_use': 50, 'copies': 30, 'graph_factory': 30},
             'forced': ['nearly parallel beams', 'nearly antiparallel beams', 'axis permutation rotation',
                        'cond(B) >= 1e5', 'component with transposed dims',
                        'dimensionless incident beam', 'dimensionless scattered beam',
@@ -522,7 +1100,23 @@ def requirements(tier):
                        'convert: float32 wavelength coordinate, back-scattering',
                        'integer wavelength',
                        'scattered beam exactly along the incident beam (Q = 0)',
-                       'scattered beam exactly opposite to the incident beam']
+                       'scattered beam exactly opposite to the incident beam',
+                       'float64 wavelength with variances', 'float32 wavelength with variances',
+                       'caller dims named like internal / coordinate names',
+                       'kernels as nodes of a caller graph (UB from u_matrix, b_matrix coordinates)',
+                       'start given as numpy.str_', 'start given as (str, Enum) member',
+                       'convert: origin, target as numpy.str_, scatter as numpy.bool_',
+                       'masked input: dense, per-pixel and 2-d masks',
+                       'masked input: events, bin-level and event-level masks',
+                       'coordinate with variances: per-pixel wavelength coordinate',
+                       'coordinate with variances: per-pixel tof coordinate',
+                       'coordinate with variances: event wavelengths',
+                       'second use: same operand objects passed again',
+                       'second use: call repeated after a refusal was raised and caught',
+                       'second use: results fed back as inputs',
+                       'second use: graph object used twice, deep-copied, factory called again',
+                       'display / copies of intermediate results between two calls']
+            + VAR_CLASSES + HEAVY_CLASSES
             + [v[0] for v in ANGLE_CLASSES.values() if v[0] not in ('nearly parallel beams', 'nearly antiparallel beams')]}
 
 
@@ -539,6 +1133,9 @@ def run(shard, ctx):
     tr.watch(K.ub_matrix_from_u_and_b, 'ub_matrix_from_u_and_b', on_return=mon.ub)
     tr.watch(K.hkl_elements_from_hkl_vec, 'hkl_elements_from_hkl_vec', on_return=mon.hkl_elements)
     with tr:
+        if shard.get('heavy'):
+            heavy(rng, ctx, K, KB, mon)
+            return
         for i in range(shard['q']):
             try:
                 sig = q_family(rng, ctx, K, KB, mon, i)
@@ -612,6 +1209,10 @@ def run(shard, ctx):
                             np.asarray(r.values), np.asarray(w.values), equal_nan=True):
                         ctx.violation('graph_factory', f'graph.tof.{fac.__name__}({start!r}) gives a different {target} '
                                       'than convert() for the same data', dict(mon.meta))
+        try:
+            insitu_extras(rng, ctx, K, KB, mon, scn, GT)
+        except Exception:  # noqa: BLE001
+            ctx.oracle_error('insitu_extras')
 
 
 TECHNIQUE = ('runtime monitors (sys.monitoring) on the Q-vector / hkl kernels; long-double defining algebra '
@@ -620,6 +1221,8 @@ LEVEL_TEXT = ('exploration: every observed return of the Q-vector/hkl kernels (d
               'against the defining algebra in long double: Q_vec = (2pi/lambda)(e_i - e_f) at 64 eps64 2pi/lambda '
               'absolute (double-precision beams) plus 64 eps32 |Q_vec| relative for single-precision wavelengths, '
               '|Q_vec| = scalar Q, independence of beam lengths, covariance under SO(3) (same two-term bounds), residual of '
-              '2 pi R UB hkl = Q at 64 eps cond |Q|, UB = U B, lossless split/reassemble. Sampled inputs, not a proof.')
+              '2 pi R UB hkl = Q at 64 eps cond |Q|, UB = U B, lossless split/reassemble; variances of Qx, Qy, Qz for a '
+              'wavelength with variances against first-order propagation and against the scalar Q. Sampled inputs, '
+              'not a proof.')
 LEVEL_NOTE = 'trusted: numpy long double, float64 SVD for condition numbers, scipp spatial containers'
 DESIGN_REF = 'DESIGN.md section 4, C08'
